@@ -52,8 +52,9 @@ type Tty struct {
 	FailWrites   int  // the next n Writes fail with nothing written
 	ShortWrite   int  // the next Write longer than this accepts only this many bytes, then fails (0 = off)
 	OnFault      func(kind string)
-	Polling      bool // polling personality: Read returns 0,nil periodically; Drain is a no-op
-	ZeroReads    int  // number of upcoming reads that return 0,nil
+	LastUnsent   []byte // the bytes the last faulted Write did not accept
+	Polling      bool   // polling personality: Read returns 0,nil periodically; Drain is a no-op
+	ZeroReads    int    // number of upcoming reads that return 0,nil
 	Faults       FaultCounts
 	MaxReadChunk int
 
@@ -284,6 +285,7 @@ func (t *Tty) Write(b []byte) (int, error) {
 	}
 	if t.FailWrites > 0 {
 		t.FailWrites--
+		t.LastUnsent = append([]byte(nil), b...)
 		t.Faults.Inc("write_fail")
 		t.log("Write", 0, true)
 		if t.OnFault != nil {
@@ -300,6 +302,7 @@ func (t *Tty) Write(b []byte) (int, error) {
 		if t.OnWrite != nil {
 			t.OnWrite(t.who(), b[:k])
 		}
+		t.LastUnsent = append([]byte(nil), b[k:]...)
 		if t.OnFault != nil {
 			t.OnFault("write_short")
 		}
